@@ -2,6 +2,7 @@ use hsim::supervisor::CheckDef;
 
 pub mod c06;
 pub mod c07;
+pub mod c07front;
 pub mod c0809;
 pub mod c13;
 pub mod c15;
@@ -9,6 +10,7 @@ pub mod c16;
 pub mod c17;
 pub mod c18;
 pub mod c19;
+pub mod denial_ref;
 pub mod dnssec;
 pub mod front;
 pub mod tsig_ref;
